@@ -531,8 +531,10 @@ func (w *willMsg) signal(send bool) {
 
 // sendWillLocked sends the will message for the client, this function must be guard by srv.Lock.
 func (srv *server) sendWillLocked(msg *gmqtt.Message, clientID string) {
+	opts := defaultIterateOptions(msg.Topic)
 	req := &WillMsgRequest{
-		Message: msg,
+		Message:          msg,
+		IterationOptions: opts,
 	}
 	if srv.hooks.OnWillPublish != nil {
 		srv.hooks.OnWillPublish(context.Background(), clientID, req)
@@ -541,6 +543,12 @@ func (srv *server) sendWillLocked(msg *gmqtt.Message, clientID string) {
 	if req.Message == nil {
 		return
 	}
+	// like for OnMsgArrived: the hook decides how the message is matched (the federation plugin excludes the local
+	// shared subscriptions when a member on another node gets the message); a hook that rewrites the topic but leaves
+	// the default options alone expects the message to be matched by its new topic.
+	if req.IterationOptions.TopicName == opts.TopicName {
+		req.IterationOptions.TopicName = req.Message.Topic
+	}
 	if req.Message.Retained {
 		if len(req.Message.Payload) == 0 {
 			srv.retainedDB.Remove(req.Message.Topic)
@@ -548,7 +556,7 @@ func (srv *server) sendWillLocked(msg *gmqtt.Message, clientID string) {
 			srv.retainedDB.AddOrReplace(req.Message.Copy())
 		}
 	}
-	srv.deliverMessage(clientID, req.Message, defaultIterateOptions(req.Message.Topic))
+	srv.deliverMessage(clientID, req.Message, req.IterationOptions)
 	if srv.hooks.OnWillPublished != nil {
 		srv.hooks.OnWillPublished(context.Background(), clientID, req.Message)
 	}
